@@ -93,6 +93,12 @@ HISTORY = {
     "many_helpers": "".join(
         "for i%d in range(2):\n    if i%d:\n        break\nelse:\n    pass\na%d, (b%d, *c%d) = 1, (2, 3)\nd%d = {}\nd%d['k'] = 0\nd%d['k'] += 1\n"
         % ((i,) * 8) for i in range(6)) + "print(i0, a5, c3)\n",
+    # literals that are EQUAL but not the same (2 == 2.0 == 2+0j, 1 == True, 0 == False == 0.0 == -0.0,
+    # 'a' == 'a' in two quote contexts, b'a' vs 'a'): anything memoised by value leaks between them
+    "equal_literals_floats": "x = 2.0\ny = 1.0\nz = 0.0\nw = -0.0\nc = 2 + 0j\nprint(x, y, z, w, c, 3.0, 1e0, 0j, 10.0, 255.0)\n",
+    "equal_literals_ints": "print(list(range(2)), [10, 20, 30][1], [5][0], 3, 10 // 3, 255, 1 + 1, 'ab'[0], 2 * 'x')\n",
+    "equal_literals_bools": "a = True\nb = False\nprint(a, b, a + 1, [7, 8][b], [7, 8][a], not 0, not 1)\n",
+    "equal_literals_strings": "print('a', b'a', 'ab', b'ab', '1', 1, '', b'', (), [], 'True', 'None', None)\n",
     # the same long string (both quote kinds, a backslash) in a replacement field: host 3.12+ syntax
     "long_string_in_field": "print(f\"{len(%r)}\", f'{%r[:4]}')\n" % (_LONG, _LONG),
 }
